@@ -145,10 +145,11 @@ func genQuotaSpec(seed uint64, tier string) *spec.RunSpec {
 	mb := r.Pick(1, 1, 2)
 	users[0].Quotas = []spec.Quota{{Days: r.Pick(1, 1, 7, 30), Megabytes: mb}}
 	if r.Bool(0.3) {
-		users[0].Quotas = append(users[0].Quotas, spec.Quota{Days: 30, Megabytes: 100})
+		users[0].Quotas = append(users[0].Quotas, spec.Quota{Days: 30, Megabytes: r.Pick(100, 2047, 4096, 1<<20, 2147483647)})
 	}
 	if r.Bool(0.5) {
-		users[2].Quotas = []spec.Quota{{Days: 1, Megabytes: 500}}
+		// another user with a generous allowance (the field is an int32 count of megabytes): never refused
+		users[2].Quotas = []spec.Quota{{Days: r.Pick(1, 30), Megabytes: r.Pick(500, 2046, 2047, 2048, 4095, 4096, 10240, 102400, 2147483647)}}
 	}
 	s.Server = spec.Server{Users: users, IP: "10.0.0.1"}
 	if tr == "tcp" {
